@@ -565,6 +565,16 @@ InlinePAChecks(r) ==
                                            /\ \A k \in 1..Kn, t \in 1..Tn : REq(r.out[k][t], Post(r.ms, r.me, r.w, p)[k][t])>>,
                   <<"sums_to_one", \A t \in 1..Tn : RSum([k \in 1..Kn |-> r.out[k][t]]) = <<1, 1>>>> >>
 
+\* float problems: r.Q[i] the criterion sum_n ln sum_k w_k exp(spatial_{p_i(k), n} + spectral_{k, n}) of the i-th permutation (first =
+\* identity), r.chosen the permutations whose Bayes posterior equals the returned affiliation
+InlinePAFChecks(r) ==
+  IF r.exc # "" THEN << <<"raises", FALSE>> >>
+  ELSE LET tol(x, y) == FMul(FNorm(64, -19), FAdd(FAdd(FAbs(x), FAbs(y)), FOne))
+           geq(x, y) == FLe(FSub(y, tol(x, y)), x)
+       IN << <<"posterior_of_some_permutation", Len(r.chosen) > 0>>,
+             <<"never_worse_than_identity", \E c \in 1..Len(r.chosen) : geq(r.Q[r.chosen[c]], r.Q[1])>>,
+             <<"best_permutation", \E c \in 1..Len(r.chosen) : \A i \in 1..Len(r.Q) : geq(r.Q[r.chosen[c]], r.Q[i])>> >>
+
 (* ---- gaussx : weighted Gaussian moments, exact on a lattice with a (possibly huge) common offset (C08) ---- *)
 \* x_n = c + u_n with integer u (N x D), weights g_n = r.g[n] / r.gden (integers), saliency folded into g.
 \* mean - c = sum g u / sum g ; covariance = sum g (u - m)(u - m)^T / sum g (translation equivariant: the offset must
@@ -587,7 +597,7 @@ GaussXChecks(r) ==
 Checks(r) == CASE r.kind = "bayesx" -> BayesXChecks(r) [] r.kind = "posterior" -> PostChecks(r)
                [] r.kind = "init" -> InitChecks(r) [] r.kind = "flag" -> FlagChecks(r)
                [] r.kind = "weightx" -> WeightXChecks(r)
-               [] r.kind = "twin" -> TwinChecks(r)
+               [] r.kind = "twin" -> TwinChecks(r) [] r.kind = "inlinepaf" -> InlinePAFChecks(r)
                [] r.kind = "domain" -> DomainChecks(r)
                [] r.kind = "mstep" -> MStepChecks(r) [] r.kind = "qform" -> QFormChecks(r) [] r.kind = "loop" -> LoopChecks(r)
                [] r.kind = "fixedpoint" -> FixedPointChecks(r)
